@@ -78,7 +78,7 @@ fn redeclare(img: &mut Value, which: u8, val: u8, dyn_img: Option<&Value>) -> Ve
         0 => {
             // query count changed (security level follows: the entry point derives it from the config)
             let q = [1u64, 2, 3, 47, 48][val as usize % 5];
-            img["config"]["n_queries"] = hexu(q);
+            if img["config"].is_object() { img["config"]["n_queries"] = hexu(q); }
             done.push(format!("n_queries={}", q));
         }
         1 => {
@@ -112,7 +112,7 @@ fn redeclare(img: &mut Value, which: u8, val: u8, dyn_img: Option<&Value>) -> Ve
             for p in ["/config/log_trace_domain_size", "/public_input/log_n_steps", "/config/traces/original/vector/height", "/config/traces/interaction/vector/height", "/config/composition/vector/height", "/config/fri/log_input_size"] {
                 let v = get(img, p) as i64 + d;
                 if v >= 0 {
-                    *img.pointer_mut(p).unwrap() = hexu(v as u64);
+                    if let Some(slot) = img.pointer_mut(p) { *slot = hexu(v as u64); }
                 }
             }
             let n_inner = img.pointer("/config/fri/inner_layers").and_then(|v| v.as_array()).map(|a| a.len()).unwrap_or(0);
@@ -120,7 +120,7 @@ fn redeclare(img: &mut Value, which: u8, val: u8, dyn_img: Option<&Value>) -> Ve
                 let p = format!("/config/fri/inner_layers/{}/vector/height", i);
                 let v = get(img, &p) as i64 + d;
                 if v >= 0 {
-                    *img.pointer_mut(&p).unwrap() = hexu(v as u64);
+                    if let Some(slot) = img.pointer_mut(&p) { *slot = hexu(v as u64); }
                 }
             }
             let v = get(img, "/config/fri/log_last_layer_degree_bound") as i64 + d;
@@ -143,7 +143,7 @@ fn redeclare(img: &mut Value, which: u8, val: u8, dyn_img: Option<&Value>) -> Ve
             let nv = [0u64, 1, 5, 100][val as usize % 4];
             let (slots, _) = enumerate(img);
             for s in slots.iter().filter(|s| s.ptr.ends_with("n_verifier_friendly_commitment_layers")) {
-                *img.pointer_mut(&s.ptr).unwrap() = hexu(nv);
+                if let Some(slot) = img.pointer_mut(&s.ptr) { *slot = hexu(nv); }
             }
             done.push(format!("nvf={}", nv));
         }
@@ -163,7 +163,7 @@ fn redeclare(img: &mut Value, which: u8, val: u8, dyn_img: Option<&Value>) -> Ve
             for p in ["/config/log_n_cosets", "/config/traces/original/vector/height", "/config/traces/interaction/vector/height", "/config/composition/vector/height", "/config/fri/log_input_size"] {
                 let v = get(img, p) as i64 + d;
                 if v >= 0 {
-                    *img.pointer_mut(p).unwrap() = hexu(v as u64);
+                    if let Some(slot) = img.pointer_mut(p) { *slot = hexu(v as u64); }
                 }
             }
             let n_inner = img.pointer("/config/fri/inner_layers").and_then(|v| v.as_array()).map(|a| a.len()).unwrap_or(0);
@@ -171,7 +171,7 @@ fn redeclare(img: &mut Value, which: u8, val: u8, dyn_img: Option<&Value>) -> Ve
                 let p = format!("/config/fri/inner_layers/{}/vector/height", i);
                 let v = get(img, &p) as i64 + d;
                 if v >= 0 {
-                    *img.pointer_mut(&p).unwrap() = hexu(v as u64);
+                    if let Some(slot) = img.pointer_mut(&p) { *slot = hexu(v as u64); }
                 }
             }
             done.push(format!("cosets_shift={}", d));
